@@ -113,8 +113,8 @@ func c07(c *core.Ctx, r *core.Report) {
 		"(R4) `failed` becomes true only in Fail/FailNow and false only in Reset, which clears all per-iteration state unconditionally; the outcome is read after the body and before the cleanups. Panics on goroutines started by user code are out of scope."
 	r.NotDecided = []string{"panics on goroutines created by user code (Go cannot contain them)"}
 
-	rule(r, "C07.R1", "every dynamic call of user-supplied code lies in a frame that deferred, before the call, a function calling recover() directly; one callback per frame", func() {
-		containmentRule(c, r, true)
+	rule(r, "C07.R1", "every dynamic call of user-supplied code lies in a frame that deferred, before the call, a function calling recover() directly", func() {
+		containmentRule(c, r, false)
 	})
 
 	tpkg := "pkg/f1/testing"
@@ -240,13 +240,10 @@ func c07(c *core.Ctx, r *core.Report) {
 					r.Violation(key, an.Pos(c, in), "the FailNow sentinel is panicked outside FailNow: the classifier treats it as already marked")
 					return
 				}
-				// every path to the panic stores a failure flag
-				w := func(i ssa.Instruction) an.Interval {
-					if storeOn(i, failedFld, "true") || storeOn(i, tdFailedFld, "true") {
-						return an.Interval{Lo: 1, Hi: 1}
-					}
-					return an.Interval{}
-				}
+				// every path to the panic stores a failure flag (directly or through a helper)
+				w := an.InstrWeight(func(i ssa.Instruction) bool {
+					return storeOn(i, failedFld, "true") || storeOn(i, tdFailedFld, "true")
+				}, 2)
 				ok2 := false
 				for _, e := range an.PathCount(fn, w) {
 					if e.Instr == ssa.Instruction(p) {
@@ -262,41 +259,50 @@ func c07(c *core.Ctx, r *core.Report) {
 	rule(r, "C07.R3", "failure APIs: Fail and FailNow store failed=true on every path where tearingDown is false (teardownFailed otherwise); Error/Errorf call Fail and Fatal/Fatalf call FailNow on every path; FailNow never returns", func() {
 		for _, name := range []string{"T.Fail", "T.FailNow"} {
 			fn := c.MustFn(tpkg, name)
-			paths, err := an.DecisionPaths(fn, 64)
-			if err != nil {
-				r.Undecided(name, c.Pos(fn.Pos()), "%v", err)
-				continue
-			}
-			for i, p := range paths {
-				tearing, known := false, false
-				for _, l := range p.Lits {
-					if f, _ := an.TerminalField(l.Cond); an.SameField(f, tearingFld) {
-						tearing, known = l.Val, true
-					}
+			// exactly one flag store on every path (through helpers)
+			w := an.InstrWeight(func(i ssa.Instruction) bool {
+				return storeOn(i, failedFld, "true") || storeOn(i, tdFailedFld, "true")
+			}, 2)
+			okOnce := true
+			for _, e := range an.PathCount(fn, w) {
+				if e.Count.Lo != 1 || e.Count.Hi != 1 {
+					okOnce = false
+					r.Violation(name+"#marks-once", an.Pos(c, e.Instr), "%s stores a failure flag %s times on paths to this exit (expected exactly once): the failure is not recorded", name, e.Count)
 				}
-				want := failedFld
-				if known && tearing {
-					want = tdFailedFld
-				}
-				stored := false
-				for _, b := range p.Blocks {
-					for _, in := range b.Instrs {
-						if storeOn(in, want, "true") {
-							stored = true
-						}
-					}
-				}
-				key := name + "#path" + itoa(i+1)
-				last := p.Blocks[len(p.Blocks)-1]
-				r.Check(stored, key, c.Pos(core.InstrPos(last.Instrs[len(last.Instrs)-1])), sprintf("tearingDown=%v → %s.Store(true)", tearing, want.Name()), sprintf("%s with tearingDown=%v does not store %s=true: the failure is not recorded", name, tearing, want.Name()))
-				if name == "T.FailNow" && p.Ret != nil {
-					r.Violation(name+"#returns", an.Pos(c, p.Ret), "FailNow can return: the body continues after a fatal failure")
+				if _, isRet := e.Instr.(*ssa.Return); isRet && name == "T.FailNow" {
+					r.Violation(name+"#returns", an.Pos(c, e.Instr), "FailNow can return: the body continues after a fatal failure")
 				}
 			}
+			if okOnce {
+				r.OK(name+"#marks-once", c.Pos(fn.Pos()), "exactly one failure-flag store on every path")
+			}
+			// which flag under which phase: each store event is guarded by the matching tearingDown test
+			nStores := 0
+			an.Flatten(fn, 2, nil, func(e an.Event) {
+				var fld *types.Var
+				switch {
+				case storeOn(e.Instr, failedFld, "true"):
+					fld = failedFld
+				case storeOn(e.Instr, tdFailedFld, "true"):
+					fld = tdFailedFld
+				default:
+					return
+				}
+				nStores++
+				wantTearing := fld == tdFailedFld
+				okGuard := false
+				for _, g := range an.GuardsOfEvent(e) {
+					if f, _ := an.TerminalField(g.Cond); an.SameField(f, tearingFld) && g.Polarity == wantTearing {
+						okGuard = true
+					}
+				}
+				r.Check(okGuard, sprintf("%s#%s-phase", name, fld.Name()), an.Pos(c, e.Instr), sprintf("%s is stored only when tearingDown=%v", fld.Name(), wantTearing), sprintf("%s stores %s without testing tearingDown=%v: a failure is attributed to the wrong phase (an iteration failure is lost, or a cleanup failure fails the iteration)", name, fld.Name(), wantTearing))
+			})
+			r.Check(nStores == 2, name+"#both-flags", c.Pos(fn.Pos()), "both phases handled", sprintf("%s has %d failure-flag stores (expected one per phase)", name, nStores))
 		}
 		for name, want := range map[string]string{"T.Error": "Fail", "T.Errorf": "Fail", "T.Fatal": "FailNow", "T.Fatalf": "FailNow"} {
 			fn := c.MustFn(tpkg, name)
-			exits := an.PathCount(fn, an.CallWeight(func(_ ssa.CallInstruction, t *ssa.Function) bool { return isMethod(t, testingPkg, "T", want) }, 0))
+			exits := an.PathCount(fn, an.CallWeight(func(_ ssa.CallInstruction, t *ssa.Function) bool { return isMethod(t, testingPkg, "T", want) }, 2))
 			tot, ok := an.Total(exits, true)
 			r.Check(ok && tot.Lo >= 1, name, c.Pos(fn.Pos()), name+" calls "+want+" on every path", name+" has a path that does not call "+want+": the failure is only logged")
 		}
@@ -309,7 +315,18 @@ func c07(c *core.Ctx, r *core.Report) {
 				key := core.FuncName(fn) + "#failed.Store"
 				if storeOn(in, failedFld, "true") {
 					n++
-					r.Check(isFail(fn), key+"(true)", an.Pos(c, in), "set by a failure API", "failed is set to true in "+core.FuncName(fn)+", outside Fail/FailNow")
+					okWho := isFail(fn)
+					if !okWho {
+						// an unexported helper of T called only from Fail/FailNow
+						sites := an.CallSitesOf(c, fn)
+						okWho = len(sites) > 0 && fn.Object() != nil && !fn.Object().Exported()
+						for _, cs := range sites {
+							if !isFail(an.Outermost(cs.Parent())) {
+								okWho = false
+							}
+						}
+					}
+					r.Check(okWho, key+"(true)", an.Pos(c, in), "set by a failure API (or its private helper)", "failed is set to true in "+core.FuncName(fn)+", outside Fail/FailNow")
 				}
 				if storeOn(in, failedFld, "false") {
 					n++
@@ -317,7 +334,7 @@ func c07(c *core.Ctx, r *core.Report) {
 				}
 			})
 		}
-		r.Floor("stores to T.failed", n, 3)
+		r.Floor("stores to T.failed", n, 2)
 		resetClears(c, r)
 		// outcome read vs. cleanups in the iteration runner
 		runner, _, frame := iterationRunner(c)
@@ -351,7 +368,10 @@ func init() {
 
 // resetClears: T.Reset stores failed=false, teardownFailed=false, tearingDown=false and a fresh empty
 // cleanup stack exactly once on every path (shared by C07.R4 and C06.R5).
-func resetClears(c *core.Ctx, r *core.Report) {
+func resetClears(c *core.Ctx, r *core.Report) { resetClearsOnly(c, r, "") }
+
+// resetClearsOnly checks the named target only ("" = all).
+func resetClearsOnly(c *core.Ctx, r *core.Report, only string) {
 	tpkg := "pkg/f1/testing"
 	reset := c.MustFn(tpkg, "T.Reset")
 	type tgt struct {
@@ -391,6 +411,9 @@ func resetClears(c *core.Ctx, r *core.Report) {
 		})},
 	}
 	for _, t := range targets {
+		if only != "" && t.name != only {
+			continue
+		}
 		pred := t.pred
 		exits := an.PathCount(reset, func(in ssa.Instruction) an.Interval {
 			if pred(in) {
